@@ -16,9 +16,11 @@ def explore_case(path_fn, engine_opts=None, setup=None, max_cex=1, want_samples=
         setup(eng)
     res = CaseResult('')
     t0 = time.time()
-    found = [0]
+    found = [0, 0]
 
     def one(eng):
+        if eng.stats.get('restarts', 0) != found[1]:
+            found[0], found[1] = 0, eng.stats.get('restarts', 0)     # the exploration started over: so does the count
         out = path_fn(eng)
         # a finished path must have a satisfiable path condition; otherwise the interpreter lost track of its own
         # decisions and every verdict on this path would be vacuous
